@@ -3,6 +3,7 @@
 mod c02;
 mod c03;
 mod c04;
+mod c05;
 mod c07;
 mod c08;
 mod c14;
@@ -26,6 +27,7 @@ pub fn replay_dispatch(prop: &str, layer: &str, case: &serde_json::Value) -> Res
         "C02" => c02::replay(layer, case),
         "C03" => c03::replay(layer, case),
         "C04" => c04::replay(layer, case),
+        "C05" => c05::replay(layer, case),
         "C07" => c07::replay(layer, case),
         "C08" => c08::replay(layer, case),
         "C14" => c14::replay(layer, case),
@@ -124,6 +126,7 @@ fn main() {
         "C02" => c02::run(&mut run, &ctx),
         "C03" => c03::run(&mut run, &ctx),
         "C04" => c04::run(&mut run, &ctx),
+        "C05" => c05::run(&mut run, &ctx),
         "C07" => c07::run(&mut run, &ctx),
         "C08" => c08::run(&mut run, &ctx),
         "C14" => c14::run(&mut run, &ctx),
